@@ -229,9 +229,16 @@ class Pipeline(object):
 
         _logger.debug('Exited workers loop.')
 
+        worker_error = None
+
         if self._worker_tasks:
             _logger.debug('Waiting for workers to stop.')
-            yield from asyncio.wait(self._worker_tasks)
+            done_tasks = (yield from asyncio.wait(self._worker_tasks))[0]
+
+            for task in done_tasks:
+                if not task.cancelled() and task.exception() \
+                        and not worker_error:
+                    worker_error = task.exception()
 
         _logger.debug('Waiting for producer to stop.')
 
@@ -252,6 +259,11 @@ class Pipeline(object):
                 raise
 
         self._state = PipelineState.stopped
+
+        if worker_error:
+            # A task that failed while the pipeline was stopping must not
+            # be silently discarded.
+            raise worker_error
 
     def stop(self):
         if self._state == PipelineState.running:
